@@ -163,5 +163,36 @@ Fixpoint fc_cost (d k : nat) : nat :=
 
 Definition fc_fuel (g : graph) (root : key) : nat := S (fc_cost (length g) (length (fc_nodes g root))).
 
+
+(* ---------- the recursive reading of the loop (FindCycleProofs.fc_exact: this is what the loop computes) ----------
+   Explore the sorted predecessors of a node in order; stop at the first node that is already on the current path. *)
+
+Inductive dres :=
+| DFound (r : list key)      (* the path from the node to the first repeated node, both included *)
+| DExhausted                 (* every path below the node ends without meeting the current path *)
+| DDepth.                    (* depth budget used up (impossible when the budget is the number of keys) *)
+
+Fixpoint scan_children (f : key -> dres) (ps : list key) : dres :=
+  match ps with
+  | [] => DExhausted
+  | p :: t => match f p with
+              | DExhausted => scan_children f t
+              | other => other
+              end
+  end.
+
+Fixpoint dfs (klt : key -> key -> bool) (g : graph) (k : nat) (x : key) (items : list key) : dres :=
+  if mem_key x items then DFound [x]
+  else match k with
+       | O => DDepth
+       | S k' => match scan_children (fun p => dfs klt g k' p (x :: items)) (preds klt g x) with
+                 | DFound r => DFound (x :: r)
+                 | other => other
+                 end
+       end.
+
+Definition fc_reference (klt : key -> key -> bool) (g : graph) (root : key) : list key :=
+  match dfs klt g (length (fc_nodes g root)) root [] with DFound r => r | _ => [] end.
+
 (* the harness instance *)
 Definition findcycle_names (g : graph) (root : key) (fuel : nat) : fc_result := findCycle klt_name g root fuel.
